@@ -362,7 +362,8 @@ class Check:
             self._prove_locked(prop_file, extra_targets)
 
     def _prove_locked(self, prop_file: str, extra_targets: Sequence[str] = ()) -> None:
-        from translate import regenerate_all
+        from translate import ensure_gen_present, regenerate_all
+        ensure_gen_present()
         vo = f"props/{prop_file}o"
         targets = [vo, "theories/Eqb.vo"] + list(extra_targets) + list(getattr(self, "_model_vo", ()))
         coq_makefile()
